@@ -4,13 +4,18 @@ from ..monitors.thinning import Thinning
 
 make(globals(), "C04", [Thinning],
      families=["atoms_power", "atoms_power_many", "atoms_cellb", "atoms_cellv", "dip_atom", "dip_in", "dip_out", "dip_ratio",
-               "dip_motion", "dip_cellb", "dip_cellv", "water_vv", "water_vi", "water_pb", "water_pi"],
+               "dip_motion", "dip_motion_ff", "water_motion", "dip_cellb", "dip_cellv", "water_vv", "water_vi", "water_pb",
+               "water_pi"],
      rule=("seeded whole runs of every configuration that proposes from the scaled nearest-image 1/r bound; (a) at "
            "every separation a run visits (all pairs of every in-state at send_event_time, and the event "
            "configuration) bound >= true rate from separately constructed potential objects, any "
            "bounding_potential_warning of such a handler is a violation; (b) the confirmation draw uniform(0, B) seen "
            "at the PRNG seam against the independently recomputed true rate decides accept/reject exactly (a random "
-           "subset of the draws is forced near 0 and near B); (c) an unconfirmed event changes no velocity; "
+           "subset of the draws is forced near 0 and near B); for the root-mode handler (a composite object moving as a "
+           "whole) true rate and bound are the sums over all pairs of leaf units at their nearest images and the "
+           "domination is judged per pair; a candidate drawn from a cell bounding potential must be confirmed against "
+           "the very rate it was drawn from (budget / time displacement at the potential seam); (c) an unconfirmed "
+           "event changes no velocity; "
            "non-trivial = >= 20 confirmation decisions judged"),
      nontrivial=lambda r: r.probes.get("c04_confirmation_decisions", 0) >= 20,
      assumptions=["bounds that are not claimed to be true bounds (cell-bounding estimators, piecewise-constant "
